@@ -250,8 +250,12 @@ func (h *History) Run(r Rng, n int, rep *Report) {
 				h.Order = append(h.Order, sr.ID)
 			}
 		case k < 8:
-			st, err := h.Env.Eng.Merge(context.Background())
+			st, err, pv := safeMerge(h.Env.Eng)
 			h.Ops = append(h.Ops, fmt.Sprintf("merge -> %v %v", st != nil, err))
+			if pv != nil {
+				rep.Add(Finding{Kind: "violation", Check: "merge-panics", Detail: fmt.Sprintf("Merge over a healthy store with legally written files panicked: %v", pv), Replay: h.Ops})
+				err = nil
+			}
 			if err != nil {
 				rep.Add(Finding{Kind: "disagreement", Check: "history-merge", Detail: "healthy merge failed: " + err.Error(), Replay: h.Ops})
 			}
@@ -472,3 +476,14 @@ func (s *shortReadSeeker) Read(p []byte) (int, error) {
 	return s.R.Read(p)
 }
 func (s *shortReadSeeker) Seek(off int64, whence int) (int64, error) { return s.R.Seek(off, whence) }
+
+// safeMerge runs Merge under recover: a panic inside the engine's own call stack is a finding, not the end of the check.
+func safeMerge(eng *bs.BloomSearchEngine) (st *bs.MergeStats, err error, pv any) {
+	defer func() {
+		if r := recover(); r != nil {
+			pv = r
+		}
+	}()
+	st, err = eng.Merge(context.Background())
+	return st, err, nil
+}
